@@ -27,7 +27,9 @@ Record gen_ok (g : lis_gen) (strict : bool) : Prop := {
   ok_i_incr : forall i, g_i_incr g i = i + 1;
   ok_best_idx : forall lt, g_best_idx g lt = lt - 1;
   ok_fast : forall c, g_fast_cond g c = if strict then c >? 0 else c >=? 0;
-  ok_search_hi : forall lt, g_search_hi g lt = lt - 1;
+  (* the search may run over tails minus its final element (as the code does) or over all of
+     tails: the fast path has already excluded the position beyond the end *)
+  ok_search_hi : (forall lt, g_search_hi g lt = lt - 1) \/ (forall lt, g_search_hi g lt = lt);
   ok_first : forall ri, g_first_cond g ri = (ri =? 0);
   ok_pred_idx : forall ri, g_pred_idx g ri = ri - 1;
   ok_repl_idx : forall ri, g_repl_idx g ri = ri;
@@ -38,11 +40,15 @@ Record gen_ok (g : lis_gen) (strict : bool) : Prop := {
   ok_right : g_right g = negb strict
 }.
 
+Ltac gen_ok_tac :=
+  split; intros; try reflexivity;
+  first [left; intros; reflexivity | right; intros; reflexivity].
+
 Lemma lnds_gen_ok : gen_ok lnds_gen false.
-Proof. split; intros; reflexivity. Qed.
+Proof. gen_ok_tac. Qed.
 
 Lemma lis_gen_ok : gen_ok lis_gen_ true.
-Proof. split; intros; reflexivity. Qed.
+Proof. gen_ok_tac. Qed.
 
 (* ---- small list facts ---- *)
 Lemma znth_map_of_nat : forall (sl : list nat) m, (m < length sl)%nat ->
@@ -334,20 +340,54 @@ Section LisProofs.
           + exists r. split; [exact Er|]. unfold search_post. repeat split; auto; lia.
       Qed.
 
-      Lemma search_spec :
-        exists r, search T cmp g vs (map Z.of_nat sl) target = Some (Z.of_nat r)
-                  /\ search_post 0 (length sl) r.
-      Proof.
-        unfold search. rewrite (ok_nsearch _ _ Hg), (ok_right _ _ Hg). cbn [Z.eqb Pos.eqb].
-        destruct (Bool.bool_dec strict true) as [Hs|Hs];
-          [|apply Bool.not_true_is_false in Hs]; rewrite Hs; cbn [negb].
-        - unfold std_binsearch, zlen. rewrite map_length. change 0 with (Z.of_nat 0).
-          apply std_loop_spec; auto; try lia; intros; lia.
-        - unfold bisect_right, zlen, bis_ln, bis_low0, bis_high0. rewrite map_length.
-          change 0 with (Z.of_nat 0).
-          apply bisect_loop_spec; auto; try lia; intros; lia.
-      Qed.
     End Search.
+
+    (* what the proof needs of the standard library's search: on a slice whose comparison results
+       against the target are monotone it returns the boundary *)
+    Definition std_ok (std : std_search T) : Prop :=
+      forall sl target,
+        (forall m, (m < length sl)%nat -> (nth m sl 0 < N)%nat) ->
+        (forall a b, (a <= b)%nat -> (b < length sl)%nat ->
+                     fol (V (nth b sl 0%nat)) target = true -> fol (V (nth a sl 0%nat)) target = true) ->
+        exists r, std vs (map Z.of_nat sl) target = Some (Z.of_nat r)
+                  /\ search_post sl target 0 (length sl) r.
+
+    Lemma std_binsearch_ok : strict = true -> std_ok (std_binsearch T cmp).
+    Proof.
+      intros Hs sl target Hlt Hmono. unfold std_binsearch, zlen. rewrite map_length.
+      change 0 with (Z.of_nat 0).
+      apply std_loop_spec; auto; try lia; intros; lia.
+    Qed.
+
+    (* the boundary is unique *)
+    Lemma search_post_unique : forall sl target r r',
+      search_post sl target 0 (length sl) r -> search_post sl target 0 (length sl) r' -> r = r'.
+    Proof.
+      intros sl target r r' (A1 & A2 & A3) (B1 & B2 & B3).
+      destruct (Nat.lt_trichotomy r r') as [H|[H|H]]; [|exact H|].
+      - pose proof (B2 r H) as X. rewrite (A3 r (le_n _) ltac:(lia)) in X. discriminate.
+      - pose proof (A2 r' H) as X. rewrite (B3 r' (le_n _) ltac:(lia)) in X. discriminate.
+    Qed.
+
+    Variable std : std_search T.
+    Hypothesis Hstd : strict = true -> std_ok std.
+
+    Lemma search_spec : forall sl target,
+      (forall m, (m < length sl)%nat -> (nth m sl 0 < N)%nat) ->
+      (forall a b, (a <= b)%nat -> (b < length sl)%nat ->
+                   fol (V (nth b sl 0%nat)) target = true -> fol (V (nth a sl 0%nat)) target = true) ->
+      exists r, search T cmp std g vs (map Z.of_nat sl) target = Some (Z.of_nat r)
+                /\ search_post sl target 0 (length sl) r.
+    Proof.
+      intros sl target sl_lt q_mono.
+      unfold search. rewrite (ok_nsearch _ _ Hg), (ok_right _ _ Hg). cbn [Z.eqb Pos.eqb].
+      destruct (Bool.bool_dec strict true) as [Hs|Hs];
+        [|apply Bool.not_true_is_false in Hs]; rewrite Hs; cbn [negb].
+      - apply (Hstd Hs); assumption.
+      - unfold bisect_right, zlen, bis_ln, bis_low0, bis_high0. rewrite map_length.
+        change 0 with (Z.of_nat 0).
+        apply bisect_loop_spec; auto; try lia; intros; lia.
+    Qed.
 
     (* ---- chains through prev ---- *)
     Inductive GoodChain (prev : list Z) : nat -> list T -> Prop :=
@@ -502,7 +542,7 @@ Section LisProofs.
     Proof. intros; unfold zlen; now rewrite map_length. Qed.
 
     Lemma step_spec : forall n tl prev, Inv n tl prev -> (n < N)%nat ->
-      exists tl' prev', step T cmp g vs (Z.of_nat n - 1) (map Z.of_nat tl, prev)
+      exists tl' prev', step T cmp std g vs (Z.of_nat n - 1) (map Z.of_nat tl, prev)
                         = Some (map Z.of_nat tl', prev') /\ Inv (S n) tl' prev'.
     Proof.
       intros n tl prev I Hn. pose proof I as [In Ine Ilt Iprev Imono Ichains Idom].
@@ -528,14 +568,18 @@ Section LisProofs.
           * exact Po.
           * intros _. rewrite Pn. reflexivity.
       - (* search and replace *)
-        rewrite (ok_search_hi _ _ Hg). unfold zslice_hi. rewrite zlen_map. fold L.
-        replace (Z.of_nat L - 1) with (Z.of_nat (L - 1)) by lia.
-        destruct (Z.ltb_spec (Z.of_nat (L - 1)) 0) as [|_]; [lia|].
-        destruct (Z.ltb_spec (Z.of_nat L) (Z.of_nat (L - 1))) as [|_]; [lia|]. cbn [orb].
+        assert (Hhi : exists K, (K = L - 1 \/ K = L)%nat /\ g_search_hi g (Z.of_nat L) = Z.of_nat K).
+        { destruct (ok_search_hi _ _ Hg) as [E|E]; rewrite E.
+          - exists (L - 1)%nat. split; [now left | lia].
+          - exists L. split; [now right | reflexivity]. }
+        destruct Hhi as (K & HK & EK).
+        unfold zslice_hi. rewrite zlen_map. fold L. rewrite EK.
+        destruct (Z.ltb_spec (Z.of_nat K) 0) as [|_]; [lia|].
+        destruct (Z.ltb_spec (Z.of_nat L) (Z.of_nat K)) as [|_]; [lia|]. cbn [orb].
         rewrite Nat2Z.id, firstn_map.
-        set (sl := firstn (L - 1) tl).
-        assert (Hsl_len : length sl = (L - 1)%nat) by (unfold sl; rewrite firstn_length; lia).
-        assert (Hsl_nth : forall m, (m < L - 1)%nat -> nth m sl 0%nat = nth m tl 0%nat)
+        set (sl := firstn K tl).
+        assert (Hsl_len : length sl = K) by (unfold sl; rewrite firstn_length; lia).
+        assert (Hsl_nth : forall m, (m < K)%nat -> nth m sl 0%nat = nth m tl 0%nat)
           by (intros; unfold sl; now apply nth_firstn_lt).
         destruct (search_spec sl (V n)) as (r & Es & (R1 & R2 & R3)).
         { intros m Hm. rewrite Hsl_nth by lia. specialize (Ilt m ltac:(lia)). lia. }
@@ -544,6 +588,11 @@ Section LisProofs.
           apply (fol_trans _ (V (nth b tl 0%nat))); [|exact Hq]. apply Imono; lia. }
         rewrite Es, (ok_first _ _ Hg), (ok_pred_idx _ _ Hg), (ok_repl_idx _ _ Hg).
         rewrite Hsl_len in R1, R3.
+        assert (Hr_lt : (r < L)%nat).
+        { destruct (Nat.lt_ge_cases r L) as [|Hge]; [assumption|]. exfalso.
+          assert (EKL : K = L) by lia.
+          pose proof (R2 (L - 1)%nat ltac:(lia)) as X. rewrite Hsl_nth in X by lia.
+          fold best in X. rewrite Ef in X. discriminate. }
         assert (Hpv : exists pv,
           (if Z.of_nat r =? 0 then Some (g_neg1 g) else znth (map Z.of_nat tl) (Z.of_nat r - 1)) = Some pv
           /\ ((0 < r)%nat -> pv = Z.of_nat (nth (r - 1) tl 0%nat))).
@@ -568,7 +617,7 @@ Section LisProofs.
     Qed.
 
     Lemma main_loop_spec : forall rng n tl prev, Inv n tl prev -> length rng = (N - n)%nat ->
-      exists tl' prev', main_loop T cmp g vs rng (Z.of_nat n - 1) (map Z.of_nat tl, prev)
+      exists tl' prev', main_loop T cmp std g vs rng (Z.of_nat n - 1) (map Z.of_nat tl, prev)
                         = Some (map Z.of_nat tl', prev') /\ Inv N tl' prev'.
     Proof.
       induction rng as [|x rng IH]; intros n tl prev I Hl; cbn [main_loop length] in *.
@@ -604,7 +653,7 @@ Section LisProofs.
     Qed.
 
     Theorem run_nonempty : (1 <= N)%nat ->
-      exists s, run_func T cmp g vs = Some s /\ Subseq s vs /\ ordered_b T cmp strict s = true /\
+      exists s, run_func T cmp std g vs = Some s /\ Subseq s vs /\ ordered_b T cmp strict s = true /\
         forall t, Subseq t vs -> ordered_b T cmp strict t = true -> (length t <= length s)%nat.
     Proof.
       intros HN. unfold run_func. rewrite (ok_empty _ _ Hg).
@@ -638,20 +687,251 @@ Section LisProofs.
     Qed.
   End Run.
 
+  (* ---- which implementation of the standard search is used cannot matter ---- *)
+  Section Irrelevance.
+    Variable g : lis_gen.
+    Hypothesis Hg : gen_ok g strict.
+    Variable vs : list T.
+    Variable d : T.
+    Variables std1 std2 : std_search T.
+    Hypothesis Hstd1 : strict = true -> std_ok vs d std1.
+    Hypothesis Hstd2 : strict = true -> std_ok vs d std2.
+    Notation N := (length vs).
+    Notation V j := (nth j vs d).
+
+    Lemma search_irrel : forall sl target,
+      (forall m, (m < length sl)%nat -> (nth m sl 0 < N)%nat) ->
+      (forall a b, (a <= b)%nat -> (b < length sl)%nat ->
+                   fol (V (nth b sl 0%nat)) target = true -> fol (V (nth a sl 0%nat)) target = true) ->
+      search T cmp std1 g vs (map Z.of_nat sl) target = search T cmp std2 g vs (map Z.of_nat sl) target.
+    Proof.
+      intros sl target Hlt Hmono.
+      destruct (search_spec g Hg vs d std1 Hstd1 sl target Hlt Hmono) as (r1 & E1 & P1).
+      destruct (search_spec g Hg vs d std2 Hstd2 sl target Hlt Hmono) as (r2 & E2 & P2).
+      rewrite E1, E2. now rewrite (search_post_unique vs d sl target r1 r2 P1 P2).
+    Qed.
+
+    Lemma step_irrel : forall n tl prev, Inv vs d n tl prev -> (n < N)%nat ->
+      step T cmp std1 g vs (Z.of_nat n - 1) (map Z.of_nat tl, prev)
+      = step T cmp std2 g vs (Z.of_nat n - 1) (map Z.of_nat tl, prev).
+    Proof.
+      intros n tl prev I Hn. pose proof I as [In Ine Ilt Iprev Imono Ichains Idom].
+      unfold step. rewrite (ok_i_incr _ _ Hg).
+      replace (Z.of_nat n - 1 + 1) with (Z.of_nat n) by lia.
+      destruct (znth (map Z.of_nat tl) _) as [best|]; [|reflexivity].
+      rewrite (znth_vs vs d n Hn).
+      destruct (znth vs best) as [vb|]; [|reflexivity].
+      destruct (g_fast_cond g _); [reflexivity|].
+      destruct (zslice_hi _ _) as [sub|] eqn:Esub; [|reflexivity].
+      assert (Hsub : exists K, (K <= length tl)%nat /\ sub = map Z.of_nat (firstn K tl)).
+      { unfold zslice_hi in Esub. rewrite zlen_map in Esub.
+        destruct ((g_search_hi g (Z.of_nat (length tl)) <? 0) || _) eqn:Eb; [discriminate|].
+        apply orb_false_elim in Eb. destruct Eb as [Eb1 Eb2].
+        apply Z.ltb_ge in Eb1, Eb2.
+        inversion Esub; subst sub. exists (Z.to_nat (g_search_hi g (Z.of_nat (length tl)))).
+        split; [lia | now rewrite firstn_map]. }
+      destruct Hsub as (K & HK & ->).
+      assert (Hsl_nth : forall m, (m < K)%nat -> nth m (firstn K tl) 0%nat = nth m tl 0%nat)
+        by (intros; now apply nth_firstn_lt).
+      assert (Hsl_len : length (firstn K tl) = K) by (rewrite firstn_length; lia).
+      rewrite (search_irrel (firstn K tl) (V n)); [reflexivity| |].
+      - intros m Hm. rewrite Hsl_len in Hm. rewrite Hsl_nth by lia.
+        specialize (Ilt m ltac:(lia)). lia.
+      - intros a b Hab Hb Hq. rewrite Hsl_len in Hb. rewrite Hsl_nth in * by lia.
+        destruct (Nat.eq_dec a b) as [->|]; [exact Hq|].
+        apply (fol_trans _ (V (nth b tl 0%nat))); [|exact Hq]. apply Imono; lia.
+    Qed.
+
+    Lemma main_loop_irrel : forall rng n tl prev, Inv vs d n tl prev -> length rng = (N - n)%nat ->
+      main_loop T cmp std1 g vs rng (Z.of_nat n - 1) (map Z.of_nat tl, prev)
+      = main_loop T cmp std2 g vs rng (Z.of_nat n - 1) (map Z.of_nat tl, prev).
+    Proof.
+      induction rng as [|x rng IH]; intros n tl prev I Hl; cbn [main_loop length] in *; [reflexivity|].
+      pose proof (inv_n _ _ _ _ _ I).
+      rewrite (step_irrel n tl prev I ltac:(lia)).
+      destruct (step_spec g Hg vs d std2 Hstd2 n tl prev I ltac:(lia)) as (tl1 & prev1 & E & I1).
+      rewrite E. replace (Z.of_nat n - 1 + 1) with (Z.of_nat (S n) - 1) by lia.
+      apply IH; [exact I1 | lia].
+    Qed.
+
+    Lemma run_nonempty_irrel : (1 <= N)%nat ->
+      run_func T cmp std1 g vs = run_func T cmp std2 g vs.
+    Proof.
+      intros HN. unfold run_func. destruct (g_empty_cond g (zlen vs)); [reflexivity|].
+      destruct (init_spec g Hg vs d HN) as (prev0 & -> & I0).
+      rewrite (ok_range_lo _ _ Hg). unfold zslice_lo.
+      destruct ((1 <? 0) || (zlen vs <? 1)); [reflexivity|].
+      change (Z.to_nat 1) with 1%nat. change 0 with (Z.of_nat 1 - 1).
+      rewrite (main_loop_irrel (skipn 1 vs) 1 [0%nat] prev0 I0); [reflexivity|].
+      rewrite skipn_length. reflexivity.
+    Qed.
+  End Irrelevance.
+
+  Theorem run_func_irrel : forall g std1 std2, gen_ok g strict ->
+    (strict = true -> forall vs d, std_ok vs d std1) ->
+    (strict = true -> forall vs d, std_ok vs d std2) ->
+    forall vs, run_func T cmp std1 g vs = run_func T cmp std2 g vs.
+  Proof.
+    intros g std1 std2 Hg H1 H2 vs. destruct vs as [|x vs'].
+    - unfold run_func. rewrite (ok_empty _ _ Hg). reflexivity.
+    - apply (run_nonempty_irrel g Hg (x :: vs') x std1 std2); [| |cbn; lia].
+      + intros Hs. apply H1. exact Hs.
+      + intros Hs. apply H2. exact Hs.
+  Qed.
+
   (* ---- for every input ---- *)
-  Theorem run_func_spec : forall g, gen_ok g strict -> forall vs,
-    exists s, run_func T cmp g vs = Some s /\ Subseq s vs /\ ordered_b T cmp strict s = true /\
+  Theorem run_func_spec : forall g std, gen_ok g strict ->
+    (strict = true -> forall vs d, std_ok vs d std) -> forall vs,
+    exists s, run_func T cmp std g vs = Some s /\ Subseq s vs /\ ordered_b T cmp strict s = true /\
       forall t, Subseq t vs -> ordered_b T cmp strict t = true -> (length t <= length s)%nat.
   Proof.
-    intros g Hg vs. destruct vs as [|x vs'].
+    intros g std Hg Hstd vs. destruct vs as [|x vs'].
     - exists []. unfold run_func. rewrite (ok_empty _ _ Hg). cbn. repeat split.
       + apply sr_nil.
       + intros t Ht _. apply SubseqR_nil_r in Ht. subst. cbn; lia.
-    - apply (run_nonempty g Hg (x :: vs') x). cbn; lia.
+    - apply (run_nonempty g Hg (x :: vs') x std); [|cbn; lia].
+      intros Hs. apply Hstd. exact Hs.
   Qed.
 End LisProofs.
 
-(* ---- the two public functions ---- *)
+(* ---- the documented contract of slices.BinarySearchFunc is all the proof needs ---- *)
+Lemma first_nonneg_le : forall ks, (first_nonneg ks <= length ks)%nat.
+Proof. induction ks as [|k ks IH]; cbn; [lia|]. destruct (k <? 0); cbn; lia. Qed.
+
+Lemma first_nonneg_before : forall ks m, (m < first_nonneg ks)%nat ->
+  exists k, nth_error ks m = Some k /\ k < 0.
+Proof.
+  induction ks as [|k ks IH]; intros m Hm; cbn in Hm; [lia|].
+  destruct (Z.ltb_spec k 0) as [Hk|Hk]; [|lia].
+  destruct m; [exists k; split; [reflexivity | exact Hk]|]. cbn. apply IH. lia.
+Qed.
+
+Lemma first_nonneg_at : forall ks, (first_nonneg ks < length ks)%nat ->
+  exists k, nth_error ks (first_nonneg ks) = Some k /\ 0 <= k.
+Proof.
+  induction ks as [|k ks IH]; cbn; intros H; [lia|].
+  destruct (Z.ltb_spec k 0) as [Hk|Hk].
+  - cbn. apply IH. lia.
+  - exists k. split; [reflexivity | exact Hk].
+Qed.
+
+Section Contract.
+  Variable T : Type.
+  Variable cmp : T -> T -> Z.
+  Variable vs : list T.
+  Variable d : T.
+
+  Lemma all_some_keys : forall (tg : T) (sl : list nat),
+    (forall m, (m < length sl)%nat -> (nth m sl 0 < length vs)%nat) ->
+    all_some (map (fun idx => key_cmp T cmp vs idx tg) (map Z.of_nat sl))
+    = Some (map (fun x => cmp (nth x vs d) tg) sl).
+  Proof.
+    intros tg sl Hlt. induction sl as [|x sl IH]; [reflexivity|].
+    cbn [map all_some]. rewrite (key_cmp_vs T cmp vs d x tg) by (apply (Hlt 0%nat); cbn; lia).
+    rewrite IH; [reflexivity|]. intros m Hm. apply (Hlt (S m)). cbn; lia.
+  Qed.
+
+  (* every implementation that meets the contract is good enough for the LIS proof *)
+  Lemma contract_std_ok : forall impl, bsf_meets_contract impl ->
+    std_ok T cmp true vs d (std_of T cmp impl).
+  Proof.
+    intros impl Himpl sl tg Hlt Hmono. unfold std_of.
+    set (ks := map (fun x => cmp (nth x vs d) tg) sl).
+    assert (Hks : forall m, (m < length sl)%nat ->
+              nth_error ks m = Some (cmp (nth (nth m sl 0%nat) vs d) tg)).
+    { intros m Hm. unfold ks. rewrite nth_error_map, (nth_error_nth' sl 0%nat Hm). reflexivity. }
+    assert (Hq : forall m, (m < length sl)%nat ->
+              follows T cmp true (nth (nth m sl 0%nat) vs d) tg
+              = (cmp (nth (nth m sl 0%nat) vs d) tg <? 0)) by reflexivity.
+    assert (Hlen : length ks = length sl) by (unfold ks; apply map_length).
+    assert (Hsorted : bsf_sorted ks).
+    { intros a b ka kb Ha Hb Hka Hkb.
+      assert (La : (a < length sl)%nat) by (rewrite <- Hlen; apply nth_error_Some; congruence).
+      assert (Lb : (b < length sl)%nat) by (rewrite <- Hlen; apply nth_error_Some; congruence).
+      rewrite (Hks a La) in Ha. rewrite (Hks b Lb) in Hb. inversion Ha; inversion Hb; subst ka kb.
+      destruct (Nat.lt_ge_cases a b) as [|Hge]; [assumption|]. exfalso.
+      assert (X : follows T cmp true (nth (nth b sl 0%nat) vs d) tg = true).
+      { apply (Hmono b a Hge La). rewrite (Hq a La). apply Z.ltb_lt. exact Hka. }
+      rewrite (Hq b Lb) in X. apply Z.ltb_lt in X. lia. }
+    rewrite (all_some_keys tg sl Hlt). fold ks.
+    rewrite (Himpl ks Hsorted). exists (first_nonneg ks). split; [reflexivity|].
+    pose proof (first_nonneg_le ks) as Hle. rewrite Hlen in Hle.
+    assert (Hbefore : forall m, (m < first_nonneg ks)%nat ->
+              follows T cmp true (nth (nth m sl 0%nat) vs d) tg = true).
+    { intros m Hm. destruct (first_nonneg_before ks m Hm) as (k & Hk & Hneg).
+      assert (Lm : (m < length sl)%nat) by lia. rewrite (Hks m Lm) in Hk. inversion Hk; subst k.
+      rewrite (Hq m Lm). apply Z.ltb_lt. exact Hneg. }
+    unfold search_post. repeat split; try lia; [exact Hbefore|].
+    intros m Hm1 Hm2.
+    destruct (follows T cmp true (nth (nth m sl 0%nat) vs d) tg) eqn:Em; [exfalso|reflexivity].
+    assert (Lr : (first_nonneg ks < length ks)%nat) by lia.
+    destruct (first_nonneg_at ks Lr) as (k & Hk & Hpos).
+    rewrite Hlen in Lr. rewrite (Hks _ Lr) in Hk. inversion Hk; subst k.
+    pose proof (Hmono _ m Hm1 Hm2 Em) as X. rewrite (Hq _ Lr) in X. apply Z.ltb_lt in X. lia.
+  Qed.
+End Contract.
+
+(* The go1.23 loop of slices.BinarySearchFunc, run directly on the comparison results, meets the
+   contract as formalised in LisSpec (so the contract is satisfiable, and is read the way the
+   actual standard library behaves). *)
+Definition go123_on_keys (ks : list Z) : option Z :=
+  std_binsearch Z (fun k _ => k) ks (map Z.of_nat (seq 0 (length ks))) 0.
+
+Lemma map_nth_seq_id : forall {A} (l : list A) d, map (fun x => nth x l d) (seq 0 (length l)) = l.
+Proof.
+  induction l as [|a l IH]; intros d; [reflexivity|].
+  cbn [length seq map nth]. f_equal. rewrite <- seq_shift, map_map. apply IH.
+Qed.
+
+Lemma linear_scan_meets_contract :
+  bsf_meets_contract (fun ks => Some (Z.of_nat (first_nonneg ks))).
+Proof. intros ks _. reflexivity. Qed.
+
+Lemma go123_meets_contract : bsf_meets_contract go123_on_keys.
+Proof.
+  intros ks Hsorted. unfold go123_on_keys.
+  set (cmpk := fun k _ : Z => k). set (sl := seq 0 (length ks)).
+  assert (Hnth : forall m, (m < length sl)%nat -> nth m sl 0%nat = m).
+  { intros m Hm. unfold sl in *. rewrite seq_length in Hm. now rewrite seq_nth. }
+  assert (Hlen : length sl = length ks) by (unfold sl; apply seq_length).
+  assert (Hlt : forall m, (m < length sl)%nat -> (nth m sl 0 < length ks)%nat).
+  { intros m Hm. rewrite (Hnth m Hm). lia. }
+  assert (Hmono : forall a b, (a <= b)%nat -> (b < length sl)%nat ->
+            follows Z cmpk true (nth (nth b sl 0%nat) ks 0) 0 = true ->
+            follows Z cmpk true (nth (nth a sl 0%nat) ks 0) 0 = true).
+  { intros a b Hab Hb Hq. rewrite Hnth in * by lia. unfold follows, cmpk in *.
+    apply Z.ltb_lt in Hq. apply Z.ltb_lt.
+    destruct (Z_lt_ge_dec (nth a ks 0) 0) as [|Hge]; [assumption|]. exfalso.
+    assert (b < a)%nat; [|lia].
+    apply (Hsorted b a (nth b ks 0) (nth a ks 0)); try lia; apply nth_error_nth'; lia. }
+  destruct (std_binsearch_ok Z cmpk true ks 0 eq_refl sl 0 Hlt Hmono) as (r & Er & Pr).
+  destruct (contract_std_ok Z cmpk ks 0 _ linear_scan_meets_contract sl 0 Hlt Hmono) as (r' & Er' & Pr').
+  rewrite Er. f_equal. f_equal.
+  rewrite (search_post_unique Z cmpk true ks 0 sl 0 r r' Pr Pr').
+  unfold std_of in Er'. rewrite (all_some_keys Z cmpk ks 0 0 sl Hlt) in Er'.
+  unfold cmpk, sl in Er'. rewrite map_nth_seq_id in Er'. inversion Er' as [E].
+  apply Nat2Z.inj in E. congruence.
+Qed.
+
+(* Machine integers: bisectRight computes (low + high) / 2 on uint and the standard library
+   int(uint(i+j) >> 1); for every slice length an int can hold the sum stays below 2^64, so the
+   unsigned arithmetic does not wrap and the unbounded-Z model is faithful; the midpoint stays
+   inside [low, high).  (All other arithmetic in lis.go / LCSFunc is +1 / -1 on values between -1
+   and a slice length.) *)
+Lemma search_mid_in_range : forall low high n,
+  0 <= low -> low < high -> high <= n -> n < 2 ^ 63 ->
+  0 <= low + high < 2 ^ 64 /\
+  low <= bis_mid low high < high /\
+  low <= Z.shiftr (low + high) 1 < high.
+Proof.
+  intros low high n H0 H1 H2 H3. unfold bis_mid.
+  rewrite Z.quot_div_nonneg by lia. rewrite Z.shiftr_div_pow2 by lia. change (2 ^ 1) with 2.
+  assert (2 ^ 64 = 2 * 2 ^ 63) by reflexivity.
+  pose proof (Z.div_mod (low + high) 2 ltac:(lia)). pose proof (Z.mod_pos_bound (low + high) 2 ltac:(lia)).
+  lia.
+Qed.
+
+(* ---- the public functions ---- *)
 Section Public.
   Variable T : Type.
   Variable cmp : T -> T -> Z.
@@ -661,10 +941,39 @@ Section Public.
   Theorem lnds_func_optimal : forall vs, exists s,
     lnds_func T cmp vs = Some s /\ Subseq s vs /\ ordered_b T cmp false s = true /\
     forall t, Subseq t vs -> ordered_b T cmp false t = true -> (length t <= length s)%nat.
-  Proof. exact (run_func_spec T cmp cmp_flip cmp_trans false lnds_gen lnds_gen_ok). Qed.
+  Proof.
+    apply (run_func_spec T cmp cmp_flip cmp_trans false lnds_gen (no_std T) lnds_gen_ok).
+    intros; discriminate.
+  Qed.
 
+  (* LISFunc over ANY implementation of slices.BinarySearchFunc that meets the documented
+     contract *)
+  Theorem lis_func_std_optimal : forall impl, bsf_meets_contract impl -> forall vs, exists s,
+    lis_func_std T cmp impl vs = Some s /\ Subseq s vs /\ ordered_b T cmp true s = true /\
+    forall t, Subseq t vs -> ordered_b T cmp true t = true -> (length t <= length s)%nat.
+  Proof.
+    intros impl Himpl.
+    apply (run_func_spec T cmp cmp_flip cmp_trans true lis_gen_ (std_of T cmp impl) lis_gen_ok).
+    intros _ vs d. apply contract_std_ok. exact Himpl.
+  Qed.
+
+  (* ... and every such implementation gives the very same result as the hand copy of the go1.23
+     loop (which the correspondence runs compare with the real package) *)
+  Theorem lis_func_std_same : forall impl, bsf_meets_contract impl -> forall vs,
+    lis_func_std T cmp impl vs = lis_func T cmp vs.
+  Proof.
+    intros impl Himpl.
+    apply (run_func_irrel T cmp cmp_flip cmp_trans true lis_gen_ _ _ lis_gen_ok).
+    - intros _ vs d. apply contract_std_ok. exact Himpl.
+    - intros _ vs d. apply std_binsearch_ok. reflexivity.
+  Qed.
+
+  (* LISFunc over the hand copy of the go1.23 loop *)
   Theorem lis_func_optimal : forall vs, exists s,
     lis_func T cmp vs = Some s /\ Subseq s vs /\ ordered_b T cmp true s = true /\
     forall t, Subseq t vs -> ordered_b T cmp true t = true -> (length t <= length s)%nat.
-  Proof. exact (run_func_spec T cmp cmp_flip cmp_trans true lis_gen_ lis_gen_ok). Qed.
+  Proof.
+    apply (run_func_spec T cmp cmp_flip cmp_trans true lis_gen_ (std_binsearch T cmp) lis_gen_ok).
+    intros _ vs d. apply std_binsearch_ok. reflexivity.
+  Qed.
 End Public.
